@@ -37,6 +37,9 @@ pub struct GenCfg {
     pub flush_weight: u32,
     /// weight of CloneDrop (queue seam only)
     pub clone_drop_weight: u32,
+    /// fault scripts may also contain short writes (`Ok(n)`, n < len, incl. 0) of the underlying
+    /// writer, encoded as kind 100 + n. Only the panic oracle (C20) is applied to such cases.
+    pub short_writes: bool,
 }
 
 pub fn cap_strategy(big: u32) -> BoxedStrategy<usize> {
@@ -134,6 +137,7 @@ pub fn writer_case(cfg: GenCfg) -> BoxedStrategy<WriterCase> {
                         6 => Just(None),
                         3 => (0u8..12).prop_map(Some),
                         1 => Just(Some(12u8)), // Interrupted (retried by std's BufWriter)
+                        (if cfg.short_writes { 3 } else { 0 }) => prop_oneof![Just(100u8), Just(101u8), Just(102u8), 100u8..140].prop_map(Some),
                     ],
                     0..(cfg.max_ops + 6),
                 )
